@@ -56,8 +56,8 @@ class C10Scenario(ChangeScenario):
                     if r['end'] is None:
                         r['end'] = tt
                         break
-        if spawn is None:
-            return out
+        if spawn is None or self.params.get('overlap_only'):
+            return out      # filter toggles re-spawn the timer: only "never overlaps with itself" is judged there
         if not resets or resets[0] != spawn:
             resets.insert(0, spawn)
         horizon = self.horizon
@@ -174,6 +174,15 @@ def build(tcfg: dict, script: list[str], edits: tuple[float, ...], **kw: Any) ->
                        settings={'persistence__consistency_timeout': 5.0}, **kw)
 
 
+def build_toggle(tcfg: dict, off: float, on: float, **kw: Any) -> C10Scenario:
+    """A label-filtered timer with slow runs whose object stops and starts matching again while a run is going on."""
+    handlers = [dict(id='ev', on='event', script=['ok']),
+                dict(id='tm', on='timer', script=['ok~3', 'ok~3', 'ok~3', 'ok'], backoff=BACKOFF, labels={'on': 'yes'}, **tcfg)]
+    user: list[tuple] = [(1.0, 'createl', 'a', 'on', 'yes'), (off, 'label', 'a', 'on', 'no'), (on, 'label', 'a', 'on', 'yes')]
+    return C10Scenario(handlers=handlers, user=user, horizon=30.0, timer=tcfg, script=['ok~3'], edits=[off, on], overlap_only=True,
+                       settings={'persistence__consistency_timeout': 5.0}, **kw)
+
+
 def scripts(tier: str) -> list[list[str]]:
     durs = ['', '~1', '~4', '~6']
     kinds = ['ok', 'temp2', 'arb', 'perm']
@@ -191,7 +200,11 @@ def run(tier: str, seed: int) -> CheckResult:
     edit_sets: list[tuple[float, ...]] = [(), (2.5,), (5.0,), (2.5, 9.0)] if tier == 'quick' else [(), (2.5,), (5.0,), (6.0,), (2.5, 9.0), (5.0, 5.0), (13.0,)]
     plain = [build(t, s, e, delays=False, early_user=False, time_dev=False)
              for t in timer_configs() for s in scripts(tier) for e in edit_sets]
+    plain += [build_toggle(t, off, off + d, delays=False, early_user=False, time_dev=False)
+              for t in (dict(interval=1.5), dict(interval=1.5, sharp=True), dict(interval=4.0, idle=1.0), dict(idle=2.0))
+              for off in (2.0, 3.0, 4.0, 6.0) for d in (0.5, 1.0, 2.5)]
     reps = [build(t, s, e, grid=1.0) for t in timer_configs() for s in (['ok~1', 'ok', 'ok'], ['temp2', 'ok~4', 'ok']) for e in [(2.5,), (5.0,)]]
+    reps += [build_toggle(dict(interval=1.5), 2.0, 3.0, grid=1.0)]
     if tier == 'quick':
         groups = [('schedule-product', plain, 0, 70.0), ('timing', reps, 1, 40.0)]
     else:
@@ -202,7 +215,8 @@ def run(tier: str, seed: int) -> CheckResult:
         bound_requested=max(g[2] for g in groups), extra={'groups': info, 'timer_configs': len(timer_configs()), 'scripts': len(scripts(tier))},
         rule="schedule product: timer config (interval {None,4} x sharp x idle {None,3} x initial_delay {None,1}; 12 configs) x scripts of 2 runs "
              "over outcomes {ok, temporary(2), arbitrary(backoff 1.5), permanent} x durations {0,1,4(=interval),6(>interval)} (quick: 6 duration "
-             "pairs) x essential edits at {none, 2.5, 5.0 (the instant a run is due), 2.5+9.0}; exact equality with timer_laws in default "
+             "pairs) x essential edits at {none, 2.5, 5.0 (the instant a run is due), 2.5+9.0}; plus a label-filtered timer with 3 s runs whose object stops and "
+             "starts matching again at 12 (off, on) instants inside/around a run (only the no-overlap law is judged there); exact equality with timer_laws in default "
              "timing; timing group: deviation-bounded search with a 1.0 clock grid where only the inequality laws are demanded; "
              "non-trivial = outcome differs from the scenario's default schedule",
         assumptions=["an 'essential change seen by the operator' = a processed event whose essence differs from the last-handled state it carries "
